@@ -7,6 +7,7 @@ package kit
 import (
 	"context"
 	"errors"
+	"time"
 
 	"github.com/tokenized/pkg/bitcoin"
 	"github.com/tokenized/pkg/wire"
@@ -76,12 +77,17 @@ type vkFetcher struct {
 	// strict: outpoints outside the kit's UTXO universe are unknown to the full node behind the
 	// fetcher, which answers with an error (as the RPC node of cmd/spynoded does)
 	strict bool
+	// delay: how long the full node takes to answer (virtual time inside the engine)
+	delay time.Duration
 }
 
 func vkFetchedValue(op wire.OutPoint) uint64 { return 900000 + uint64(op.Index)*16 + uint64(op.Hash[0]) }
 
 func (f *vkFetcher) GetOutputs(ctx context.Context, ops []wire.OutPoint) ([]bitcoin.UTXO, error) {
 	f.calls++
+	if f.delay > 0 {
+		time.Sleep(f.delay)
+	}
 	out := make([]bitcoin.UTXO, len(ops))
 	for i, op := range ops {
 		if f.strict && op.Hash[9] != 0xee {
